@@ -575,7 +575,7 @@ def generate(unit, twin=None, outdir=None):
                             "last": cur_line + n - 1, "tags": val.tags, "file": val.path})
             out_lines.append(txt)
             cur_line += n
-    suffix = "" if not twin else ".twin_" + twin
+    suffix = "" if not twin else "_twin_" + twin
     out_path = os.path.join(outdir, unit + suffix + ".rs")
     text = "".join(out_lines)
     if twin == "entry":
